@@ -83,7 +83,48 @@ DESC = {
  'C20-m2': "`with_migrate_empty` rebuilds with `reply_fn: None`",
  'C20-m3': "`build` runs the init function only when the supplied storage is empty",
  'C20-m4': "`new_custom` inlines a default block without the nanosecond part of `mock_env().block.time`",
+ 'C01-m5': "dropped `?` on the funds transfer of `WasmMsg::Execute`: an unpayable call runs as if paid and the transaction returns Ok",
+ 'C01-m6': "sudo cache moved from `App` into the wasm keeper one step too late: a failing message of a sudo response leaves the handler's own writes committed",
+ 'C02-m5': "`WasmKeeper::reply` returns early for id 0 without calling the contract: failures tagged id 0 are absorbed without consulting the handler",
+ 'C02-m6': "`customize_msg` rebuilt with SubMsg constructors: `ReplyOn::Error` falls into a catch-all and becomes `Never` for contracts registered through `*_empty` constructors",
+ 'C03-m5': "sub-messages with id 0 bypass `execute_submsg`: never replied to, failures not caught",
+ 'C03-m6': "same change as C02-m6 seen from C03",
+ 'C04-m5': "hand-written protobuf encoder with a varint off-by-one: data of exactly 128 bytes gets a one-byte length",
+ 'C04-m6': "`sudo` applies `data.or(res.data)` with the operands reversed: own data wins over reply data (sudo only)",
+ 'C05-m5': "`get_env` clamps the block height to i64::MAX: contracts see another block than the simulator's above that",
+ 'C05-m6': "`info.funds` is sorted and `dedup_by` denom: repeated denominations are dropped from what the contract is told (the transfer moves the full amount)",
+ 'C06-m5': "`range` fast path `start >= last pending key` (should be `>`): the delta of the greatest pending key is ignored when it is the start bound",
+ 'C06-m6': "`RepLog::commit` coalesces the log (writes, then removals): remove-then-set of a key is committed as removed",
+ 'C07-m5': "`to_length_prefixed_nested` fast path writes `[0, len as u8]` for len <= 0x100: a 256-byte segment is encoded with length 0",
+ 'C07-m6': "`concat` returns the KEY instead of the namespace when the key is empty: point operations on the empty key leave the window",
+ 'C08-m5': "`query_raw` seeks with `range(Some(key), None).next()`: an absent key answers with the next greater key's value",
+ 'C08-m6': "`register_contract` 'resets' the storage of the CREATOR instead of the new contract: a contract that instantiates another loses all its records",
+ 'C09-m5': "`mint` saves the amount verbatim for never-seen accounts (no normalisation): repeated denominations are stored twice and the queries disagree",
+ 'C09-m6': "`normalize_amount` adds `.dedup()`: two adjacent equal coins count once",
+ 'C10-m5': "nested-smart-query depth counter on the keeper that is not restored when a smart query fails: after ~10 failing queries every smart query fails",
+ 'C10-m6': "`MergeOverlay::next` rewritten as a loop: an overwritten key is listed twice (new then old) by range reads inside the transaction",
+ 'C11-m5': "duplicate check folded into `BTreeMap::insert`: a refused `store_code_with_id` still REPLACES the stored entry",
+ 'C11-m6': "Migrate saves the new code id after `call_migrate`: the OLD code's migrate entry point runs",
+ 'C12-m5': "Migrate saves the contract record (loaded before) after `process_response`: admin changes / migrations returned by the new code's migrate are overwritten",
+ 'C12-m6': "`ContractWrapper::migrate` with a missing migrate_fn returns Ok: Migrate to a code without migrate entry point succeeds",
+ 'C13-m5': "`App::wasm_sudo` without its write cache: a sudo that writes and returns a malformed response keeps its writes",
+ 'C13-m6': "custom event types are trimmed when renamed to `wasm-<type>`: padded types do not surface unchanged",
+ 'C14-m5': "Undelegate merges queue entries of the same delegator and payout time WITHOUT comparing the validator",
+ 'C14-m6': "`get_stake` returns None for a delegation below one token: with process_queue's None arm the staker set goes stale and the next reward update panics",
+ 'C15-m5': "`remove_rewards` no longer calls `update_rewards`: a withdrawal moves the validator's reward clock without crediting the other delegators",
+ 'C15-m6': "apr and commission swapped at the `update_rewards` call site (not on the query path)",
+ 'C16-m5': "same change as C14-m5 seen from C16: a slash scales (or misses) the merged unbonding of another validator",
+ 'C16-m6': "`get_stake` rounds up (`to_uint_ceil`): AllDelegations lists more than the slashed amount",
+ 'C17-m5': "error-arm guard `reply_on != Never`: a failing MODULE under `ReplyOn::Success` is handed to reply instead of aborting",
+ 'C17-m6': "`Wasm::sudo` returns early when the response HAS messages: messages emitted by sudo are dropped",
+ 'C18-m5': "`addr_make` returns its input unchanged when it already validates: a name that is an address collides with the name it was made from",
+ 'C18-m6': "`into_bech32m_with_prefix` shortcut for the default prefix calls `into_bech32()`",
+ 'C19-m5': "checksum generator builds its text in a thread-local string with `replace_range`: a longer earlier code id leaves its tail behind",
+ 'C19-m6': "validator staker set stored as a `HashSet`: raw storage order depends on RandomState",
+ 'C20-m5': "`with_block` keeps the previous chain id when the supplied one is empty",
+ 'C20-m6': "`with_reply_empty` rebuilds with `sudo_fn: None`",
 }
+
 
 ROOT = os.path.dirname(os.path.dirname(os.path.abspath(__file__)))
 
